@@ -5,7 +5,7 @@ import cvlib
 # that breaks its contract breaks the assumption every C01.O2 / O3 obligation was proved under.
 if not hasattr(cvlib, 'FULL_GROUPS'):
     cvlib.FULL_GROUPS = {}
-cvlib.FULL_GROUPS['C01'] = [r'C02\.L3\..*']
+cvlib.FULL_GROUPS['C01'] = [r'C02\.L[123]\..*']
 GROUPS = [
     order_group('C01', 'C01.O1.event_order', 'ORDER_EVENT', 'heap_order_check', 'src/cmb_event.c', also=['C02']),
 ]
@@ -31,3 +31,13 @@ GROUPS += [
 # (C01.O3.api.pattern_cancel is NOT registered: the event-level pattern cancel over the sorted hashheap stub did not finish in
 #  1800 s with <= 3 events nor in 1000 s with <= 2 events and a MiniSat/CaDiCaL portfolio; cmb_event_pattern_cancel delegates to
 #  cmi_hashheap_pattern_cancel, which is C02.L3.pattern_cancel.cap2 (thorough) and counts for C01 in full)
+
+# cmb_event_pattern_cancel against the CONTRACT of cmb_event_cancel (arbitrary heap layout after every cancellation): the
+# event-level function walks the heap itself and does not delegate to cmi_hashheap_pattern_cancel
+GROUPS += [Group(id='C01.O3.pattern_cancel.cancel_contract', prop='C01', harness='evpatcancel.c', entry='h_evpatcancel', level='bounded-shape',
+          bound='arbitrary pending set of <= 4 events, any pattern; cmb_event_cancel replaced by its contract (pending set minus the event, arbitrary new heap layout); loops fully unwound with unwinding assertions',
+          backend='sat', timeout=600, tier='quick', unwind=8, canaries=2, functions=['cmb_event_pattern_cancel'],
+          replace_calls=[('cmb_event_cancel', 'cmv_event_cancel_contract')], also=['C10'],
+          stubs=['cmb_event_cancel: contract stub (established on the real body by C01.O3.api.cancel and, for the heap, C02.L3.remove.cap2); heap layout after a cancellation over-approximated as arbitrary',
+                 'cmi_hashheap.c: stub hhstub_sorted.h (only create / initialize are reached)'],
+          assumes=['the caller does not rely on the heap order between two cancellations', 'waking the waiters of a cancelled event is part of the cmb_event_cancel contract (C01.O2.event_waiters.cancelled), not re-checked here'])]
